@@ -414,7 +414,7 @@ def main():
     tier = os.environ.get("VERIF_TIER_OVERRIDE", tier)
     seed = int(os.environ.get("VERIF_SEED", "1") or 1)
     sys.path.insert(0, os.path.join(VERIF, "tools"))
-    mod = importlib.import_module("checks." + prop)
+    mod = importlib.import_module("checks." + prop.replace("-", "_"))
     ctx = Ctx(prop, tier, seed, level=getattr(mod, "LEVEL", "model_checking"))
     replay = None
     if "--replay" in sys.argv:
